@@ -83,10 +83,16 @@ impl Hash for JsonValue {
             }
             JsonValue::Object(o) => {
                 state.write_i8(7);
+                // Objects are equal whatever the order of their members, so the hash
+                // must not depend on that order: add up the hashes of the members.
+                let mut members: u64 = 0;
                 for (key, value) in o {
-                    key.hash(state);
-                    value.hash(state);
+                    let mut member = std::collections::hash_map::DefaultHasher::new();
+                    key.hash(&mut member);
+                    value.hash(&mut member);
+                    members = members.wrapping_add(std::hash::Hasher::finish(&member));
                 }
+                state.write_u64(members);
             }
             JsonValue::Boolean(true) => {
                 state.write_i8(8);
